@@ -10,7 +10,7 @@ from concurrent.futures import ThreadPoolExecutor
 from . import lib
 
 PROP = "C12"
-KINDS = ["has_many", "has_one", "belongs_to", "many2many", "poly"]
+KINDS = ["has_many", "has_one", "belongs_to", "many2many", "poly", "polyone"]
 
 
 def validate(w, name, rows):
@@ -27,7 +27,7 @@ def describe(e, b):
 
 def run_one(w, vh, case, name):
     d = w.sub(name)
-    lib.write_ndjson(os.path.join(d, "h.ndjson"), [{"ops": case["ops"]}])
+    lib.write_ndjson(os.path.join(d, "h.ndjson"), [{"ops": case["ops"], "links": case.get("links")} if case.get("links") else {"ops": case["ops"]}])
     cmd = [vh, "amode-replay", "-cases", os.path.join(d, "h.ndjson"), "-kind", case["kind"], "-out", os.path.join(d, "o.ndjson")]
     if case["unscoped"]:
         cmd.append("-unscoped")
@@ -91,7 +91,7 @@ def check(w, tier, t0):
     trans += tr
     for b in v["bad"]:
         e = events[b["i"] - 1]
-        verdict.bad({"kind": e["kind"], "unscoped": e["unscoped"], "mode": e["mode"], "ops": json.loads(e["rops"])}, sig(e), describe(e, b))
+        verdict.bad({"kind": e["kind"], "unscoped": e["unscoped"], "mode": e["mode"], "ops": json.loads(e["rops"]), "links": e["init"]["links"]}, sig(e), describe(e, b))
 
     def reproduce(case):
         vv, _ = run_one(w, vh, case, "repro-" + lib.case_hash(case))
